@@ -17,6 +17,8 @@ for i, a in enumerate(sys.argv):
 def items():
     if seeded:
         for d in sorted(glob.glob(os.path.join(ROOT, "seeded", "*"))):
+            if not os.path.exists(os.path.join(d, "meta.json")):
+                continue          # an intake still in progress
             meta = json.load(open(os.path.join(d, "meta.json")))
             props = meta.get("checks") or [meta["property"]]
             for p in props:
